@@ -15,6 +15,7 @@ Decides (symbolic / finite-table interpretation of the syntax tree, plus CFG rul
 Not decided: textual round trip of floating-point values / whole graphs through TGLF.
 """
 import copy
+import re
 from fractions import Fraction
 
 from ..astq import strip, strip_casts, calls, call_args, writes, written_field, norm, literal_value, src, single_assignment_locals, call_object
@@ -298,6 +299,76 @@ def rule_dir_commute(chk, prog, extracted, TF, GT, ST):
             else:
                 r.ok(inst, add.where(), "-> %s" % d2)
     chk.sample({"rule": "DIR-COMMUTE", "case": "addSep(EAST,g); ROTATE90CW == addSep(SOUTH,g)"})
+
+
+def rule_addsep_sequence(chk, prog, GT, ST):
+    """SepMatrix::addSep's contract: a later separation overwrites what it conflicts with and leaves the rest intact."""
+    from ..microai.interp import Oracle
+    SD = enum_vals(prog, "dialect::SepDir")
+    add = prog.fn("dialect::SepPair::addSep")
+    r = chk.rule("ADDSEP-SEQUENCE", "SepPair::addSep interpreted on every ordered pair of calls over 8 directions x {EQ, INEQ} x {CENTRE, BDRY} x gaps "
+                 "{-7, 5, 20} on one pair of nodes: the second call fixes the component(s) of its direction exactly as it would on an empty "
+                 "pair -- whatever the first call stored, larger, smaller or of opposite sign -- and leaves the other component as the first "
+                 "call left it (constraints.h: `overwrites anything with which it is in conflict, but leaves everything else intact`); a negative "
+                 "gap is how SepMatrix states the reversed constraint for ids given in descending order", floor=8)
+    calls_ = [(d, st, gt, Fraction(g)) for d in SD for st in ("EQ", "INEQ") for gt in ("CENTRE", "BDRY") for g in (-7, 5, 20)]
+
+    def apply(pair, c):
+        it = Interp(prog, Oracle([]), lattice=False)
+        it.call(add, pair, None, None, arg_values=[GT[c[2]], SD[c[0]], ST[c[1]], c[3]])
+        return pair
+    single = {}
+    for c in calls_:
+        e = sym_pair(GT["CENTRE"], GT["CENTRE"], ST["NONE"], ST["NONE"], Fraction(0), Fraction(0))
+        try:
+            single[c] = state(apply(e, c))
+        except (Unsupported, AssertFail) as ex:
+            raise AnalysisBroken("SepPair::addSep outside the interpreter subset: %s" % ex)
+    touches = {"EAST": "xy", "WEST": "xy", "SOUTH": "xy", "NORTH": "xy", "RIGHT": "x", "LEFT": "x", "DOWN": "y", "UP": "y"}
+    for d2 in SD:
+        bad = None
+        n = 0
+        for c2 in [c for c in calls_ if c[0] == d2]:
+            for c1 in calls_:
+                e = sym_pair(GT["CENTRE"], GT["CENTRE"], ST["NONE"], ST["NONE"], Fraction(0), Fraction(0))
+                got = state(apply(apply(e, c1), c2))
+                s1, s2 = single[c1], single[c2]
+                want = list(s1)
+                if "x" in touches[d2]:
+                    want[0], want[2], want[4] = s2[0], s2[2], s2[4]
+                if "y" in touches[d2]:
+                    want[1], want[3], want[5] = s2[1], s2[3], s2[5]
+                n += 1
+                if tuple(want) != got and bad is None:
+                    bad = "after addSep%s then addSep%s the pair is %s, expected %s" % (c1, c2, got, tuple(want))
+        r.count(n)
+        (r.bad if bad else r.ok)("second call %s" % d2, add.where(), bad or "%d sequences" % n)
+
+
+def rule_tglf_route_order(chk, prog):
+    r = chk.rule("TGLF-ROUTE-ORDER", "dialect::buildGraphFromTglf hands the route points of a LINKS line to Edge::addRoutePoint in the order in which "
+                 "they are read: the reader contains no reordering primitive (std::reverse / sort / rotate / swap, reverse iterators, push_front, "
+                 "insert at begin()) -- Graph::writeTglf writes a route from its source end, and write -> read -> write must reproduce it", floor=2)
+    fn = prog.fn("dialect::buildGraphFromTglf", sig="istream")
+    adds = [c for c in calls(fn) if c.get("cname") == "dialect::Edge::addRoutePoint"]
+    r.count()
+    if not adds:
+        r.bad("route points stored", fn.where(), "the reader no longer stores route points (Edge::addRoutePoint is not called)")
+    else:
+        r.ok("route points stored", fn.loc(adds[0]))
+    reorder = []
+    for c in calls(fn):
+        cn = str(c.get("cname", ""))
+        base = cn.split("<")[0]
+        if base in ("std::reverse", "std::sort", "std::stable_sort", "std::rotate", "std::swap", "std::iter_swap", "std::reverse_copy", "std::partial_sort") \
+                or re.search(r"::(rbegin|rend|crbegin|crend|push_front|emplace_front)$", base):
+            reorder.append(c)
+        elif re.search(r"::(insert|emplace)$", base) and any(".begin()" in norm(a) for a in call_args(c)[:1]):
+            reorder.append(c)
+    r.count()
+    (r.ok if not reorder else r.bad)("no reordering in the reader", fn.loc(reorder[0]) if reorder else fn.where(), "" if not reorder else
+                                     "%s is applied while a graph is read: route points (or other sequences of the file) can come out in another order "
+                                     "than they were written" % str(reorder[0].get("cname")).split("<")[0])
 
 
 def table_fn(prog, q, dom):
@@ -937,6 +1008,8 @@ def run(chk):
     extracted, TF, GT, ST = rule_transform(chk, prog)
     chk.guard(rule_group, chk, prog, extracted)
     chk.guard(rule_dir_commute, chk, prog, extracted, TF, GT, ST)
+    chk.guard(rule_addsep_sequence, chk, prog, GT, ST)
+    chk.guard(rule_tglf_route_order, chk, prog)
     chk.guard(rule_enum_tables, chk, prog)
     chk.guard(rule_neg_zero, chk, prog)
     chk.guard(rule_flipped, chk, prog)
